@@ -221,6 +221,7 @@ func (db *DBResource) ConnectionForXA(ctx context.Context, xaXid XAXid) (*XAConn
 	}
 	xaResource, err := xa.CreateXAResource(newDriverConn, types.DBTypeMySQL)
 	if err != nil {
+		newDriverConn.Close()
 		return nil, fmt.Errorf("create xa resoruce err:%w", err)
 	}
 	xaConn := &XAConn{
@@ -228,8 +229,9 @@ func (db *DBResource) ConnectionForXA(ctx context.Context, xaXid XAXid) (*XAConn
 			targetConn: newDriverConn,
 			res:        db,
 		},
-		xaBranchXid: XaIdBuild(xaXid.GetGlobalXid(), xaXid.GetBranchId()),
-		xaResource:  xaResource,
+		xaBranchXid:       XaIdBuild(xaXid.GetGlobalXid(), xaXid.GetBranchId()),
+		xaResource:        xaResource,
+		openedForPhaseTwo: true,
 	}
 	return xaConn, nil
 }
